@@ -186,8 +186,22 @@ mod tests {
 }
 
 #[cfg(funbiscuit_embedded_cli_rs_verif)]
+impl<'a, W: Write<Error = E>, E: Error> Writer<'a, W, E> {
+    pub fn __verif_from_parts(writer: &'a mut W, last_bytes: [u8; 2], dirty: bool) -> Self {
+        Self {
+            last_bytes,
+            dirty,
+            writer,
+        }
+    }
+}
+
+#[cfg(funbiscuit_embedded_cli_rs_verif)]
 impl<W: Write<Error = E>, E: Error> Writer<'_, W, E> {
     pub fn __verif_is_dirty(&self) -> bool {
         self.is_dirty()
+    }
+    pub fn __verif_parts(&self) -> ([u8; 2], bool) {
+        (self.last_bytes, self.dirty)
     }
 }
